@@ -18,6 +18,7 @@ import time
 import common
 import c02_ext as X
 import c02_proto as P
+import c02_lit as L
 import c02_gen as G
 import c02_table
 
@@ -483,6 +484,10 @@ def run(res):
       uw = P.UserWorld.random(pr)
       p_batches.append((uw, P.gen_pairs(pr, uw, 40)))
     p_progs = [("proto%d" % i,) + P.build_program(uw, pairs) for i, (uw, pairs) in enumerate(p_batches)]
+  # --- extension leg (e) Literal types + return statements with multi-binding variables: own PRNG stream
+  lr = common.rng(res.seed, "c02lit")
+  l_batches = [L.gen_cases(lr, 60, 15) for _ in range(24 if thorough else 5)]
+  l_progs = [("lit%d" % i,) + L.build_program(p, rs) for i, (p, rs) in enumerate(l_batches)]
   # --- real pytype
   t0 = time.time()
   nproc = 4
@@ -491,6 +496,7 @@ def run(res):
     jobs = [(h.to_json(), p) for _, h, p in batches]
     async_ext = pool.map_async(X.work, x_progs, chunksize=1)
     async_proto = pool.map_async(P.work, [(t, src) for t, src, _ in p_progs], chunksize=1)
+    async_lit = pool.map_async(L.work, [(t, src) for t, src, _ in l_progs], chunksize=1)
     async_impl = pool.map_async(_work, jobs, chunksize=1)
     # reveal_type sample for abs
     rv_hier = G.Hier.default()
@@ -511,11 +517,13 @@ def run(res):
     x_files = [("c02_ext", X.coq_body(x_arg, x_st))]
     if p_batches:
       x_files.append(("c02_proto", P.coq_body(p_bw, p_batches)))
+    x_files.append(("c02_lit", L.coq_body(l_batches)))
     coq_out = common.run_cases_parallel(x_files + files, timeout=1200)
     t_coq = time.time() - t1
     x_impl = async_ext.get()
     p_impl = async_proto.get()
     impl = async_impl.get()
+    l_impl = async_lit.get()
     rv_out = async_rv.get()
   t_impl = time.time() - t0
   codes = []
@@ -670,6 +678,10 @@ def run(res):
     if not p_ok:
       res.obligation("model-run:c02_proto", False, p_out[-1500:])
     P.evaluate(res, p_bw, p_batches, p_progs, p_impl, common.parse_coq_eval(p_out) if p_ok else [])
+  l_ok, l_out = coq_out["c02_lit"]
+  if not l_ok:
+    res.obligation("model-run:c02_lit", False, l_out[-1500:])
+  L.evaluate(res, l_batches, l_progs, l_impl, common.parse_coq_eval(l_out) if l_ok else [])
   # --- abs vs reveal_type
   n_rv = n_rv_bad = 0
   k = 0
@@ -715,6 +727,8 @@ def common_coqchk(pid):
 def replay(res, path):
   common.bootstrap_pytype()
   d = json.load(open(path))["replay"]
+  if d.get("leg") in ("lit", "lit-ret"):
+    return L.replay(d)
   if d.get("leg") in ("argsite", "store", "proto"):
     return X.replay(d)
   hier = G.Hier.from_json(d["hier"])
